@@ -316,7 +316,11 @@ class PureEval:
                 return {"True": True, "False": False, "None": None}[node.id]
             ma = getattr(self, "module_assigns", None)
             if ma and node.id in ma and len(ma[node.id]) == 1:
-                return self.ev(ma[node.id][0], {})
+                # a module-level name is bound once: every reference sees the same object (a shared NaN, a shared list)
+                cache = self.__dict__.setdefault("_modcache", {})
+                if node.id not in cache:
+                    cache[node.id] = self.ev(ma[node.id][0], {})
+                return cache[node.id]
             raise FevalError(f"free name {node.id}")
         if isinstance(node, (ast.GeneratorExp, ast.ListComp, ast.SetComp)):
             out = []
@@ -494,6 +498,10 @@ class ObjEval(BlockEval):
     finite set of witness call sequences: attribute and subscript stores on the instance, calls between its methods, generators (the
     yielded values are returned as a tuple), bounded loops.  Anything outside that fragment raises FevalError."""
 
+    def call(self, fn_node, *args):
+        # functions passed as values (map(f, xs)) run with the same statement fragment as direct calls
+        return self.call_method(fn_node, *args)
+
     MAX_ITER = 64
     MAX_STEPS = 20000
 
@@ -640,6 +648,32 @@ class ObjEval(BlockEval):
                 raise _Brk()
             if isinstance(st, ast.Continue):
                 raise _Cnt()
+            if isinstance(st, ast.Try) and not st.finalbody and all(h.type is not None for h in st.handlers):
+                # `try: <pure builtin call> except <builtin exception>:` - the exception a real builtin raises on the witness value selects the handler
+                import builtins as _b
+                kinds = []
+                for h in st.handlers:
+                    names = [x.id for x in (h.type.elts if isinstance(h.type, ast.Tuple) else [h.type]) if isinstance(x, ast.Name)]
+                    ts = tuple(getattr(_b, n_) for n_ in names if isinstance(getattr(_b, n_, None), type) and issubclass(getattr(_b, n_), BaseException))
+                    if len(ts) != len(names) or not ts:
+                        raise FevalError("except clause over a non-builtin exception")
+                    kinds.append(ts)
+                try:
+                    self.exec(st.body, env)
+                except (_Ret, _Brk, _Cnt, BlockOutcome, FevalError):
+                    raise
+                except Exception as ex:  # noqa: BLE001 - raised by a builtin applied to a witness value
+                    for h, ts in zip(st.handlers, kinds):
+                        if isinstance(ex, ts):
+                            if h.name:
+                                env[h.name] = ex
+                            self.exec(h.body, env)
+                            break
+                    else:
+                        raise
+                else:
+                    self.exec(st.orelse, env)
+                continue
             raise FevalError(f"statement {type(st).__name__}")
 
     def ev(self, node, env):
@@ -656,7 +690,32 @@ class ObjEval(BlockEval):
             env[node.target.id] = v
             return v
         if isinstance(node, ast.Dict):
-            return {self.ev(k, env): self.ev(v, env) for k, v in zip(node.keys, node.values)}
+            out = {}
+            for k, v in zip(node.keys, node.values):
+                if k is None:
+                    out.update(self.ev(v, env))
+                else:
+                    out[self.ev(k, env)] = self.ev(v, env)
+            return out
+        if isinstance(node, ast.Call) and isinstance(node.func, ast.Name):
+            target = self.resolve(node.func.id) if node.func.id not in env else None
+            star = [k for k in node.keywords if k.arg is None]
+            if target is not None or star:
+                args = []
+                for a in node.args:
+                    if isinstance(a, ast.Starred):
+                        args.extend(self.ev(a.value, env))
+                    else:
+                        args.append(self.ev(a, env))
+                kwargs = {k.arg: self.ev(k.value, env) for k in node.keywords if k.arg}
+                for k in star:
+                    kwargs.update(self.ev(k.value, env))
+                if target is not None:
+                    return self.call_method(target, *args, **kwargs)
+                f = self.ev(node.func, env)
+                if callable(f):
+                    return f(*args, **kwargs)
+                raise FevalError(f"call of {node.func.id}")
         if isinstance(node, (ast.List, ast.Tuple)) and any(isinstance(e, ast.Starred) for e in node.elts):
             out = []
             for e in node.elts:
@@ -706,6 +765,8 @@ class ObjEval(BlockEval):
                 raise FevalError(f"method {m}")
             if isinstance(base, dict) and m in base and callable(base[m]):
                 return base[m](*args, **kwargs)  # a module modelled as a dict of names
+            if isinstance(base, (int, float, complex, str, bytes)) and not m.startswith("_") and hasattr(base, m):
+                return getattr(base, m)(*args, **kwargs)  # methods of immutable scalars are pure
             if isinstance(base, (dict, list, set, tuple, frozenset, str)) and m in (
                     "get", "setdefault", "append", "add", "pop", "update", "extend", "items", "keys", "values", "count", "index", "discard", "remove",
                     "insert", "copy", "union", "intersection", "difference", "isdisjoint", "issubset", "issuperset", "most_common", "clear"):
